@@ -23,3 +23,8 @@ def check(ctx):
     G.param_match_predicate(ctx, "C17.4")
     G.module_template(ctx, "C17.2")
     G.phantom_data(ctx, "C17.1")
+    # keep-first and shape grouping compare (later, earlier): the outcome is independent of entry order only if the shape
+    # comparator is symmetric - every field and every list length compared on both operands in mirrored positions
+    from . import c03
+    with ctx.only(lambda k: k.startswith("comparator-coverage/") or k.startswith("comparator-length/") or k.startswith("comparator-arm/")):
+        c03.comparator(ctx, "C17.5")
